@@ -7,8 +7,8 @@ import sys
 
 d = sys.argv[1]
 names = sys.argv[2:] or sorted(f[:-4] for f in os.listdir(d) if f.endswith('.log'))
-print('| seeded change | what it changes | needs | exit | deductive obligations reported (first) | bounded clauses reported (first) |')
-print('|---|---|---|---|---|---|')
+rows = []
+stats = {'replayed': 0, 'deductive-only': 0, 'missed': 0, 'other-exit': 0}
 for s in names:
     meta = json.load(open(f'/verif/seeded/{s}/meta.json'))
     log = open(os.path.join(d, s + '.log')).read().splitlines()
@@ -24,5 +24,17 @@ for s in names:
                 cls.append(m.group(1)[:110])
     m = re.search(r'exit=(\d)', log[-1]) if log else None
     cell = lambda x: str(x).replace('|', '\\|').replace('\n', ' ')   # noqa: E731
-    print(f"| {s} | {cell(meta['summary'])[:260]} | {cell(meta.get('needs', ''))[:220]} | {m.group(1) if m else '?'} | "
-          f"{len(obs)}: {cell(obs[0]) if obs else '-'} | {len(cls)}: {cell(cls[0]) if cls else '-'} |")
+    code = m.group(1) if m else '?'
+    replayed = bool(cls) or any(o.endswith('(replayed)') for o in obs)
+    stats['missed' if code == '0' else 'other-exit' if code != '1' else 'replayed' if replayed else 'deductive-only'] += 1
+    rows.append(f"| {s} | {cell(meta['summary'])[:260]} | {cell(meta.get('needs', ''))[:220]} | {code} | "
+                f"{len(obs)}: {cell(obs[0]) if obs else '-'} | {len(cls)}: {cell(cls[0]) if cls else '-'} |")
+print(f"{len(rows)} seeded changes: {stats['replayed']} reported with an input replayed on the real code (a bounded clause, or a deductive obligation whose "
+      f"counterexample was concretised), {stats['deductive-only']} reported by deductive obligations only (`no-failing-input-found`), "
+      f"{stats['missed']} not reported (exit 0), {stats['other-exit']} ended with another exit code.  When a bounded check replays a violation the run stops "
+      f"the deductive tasks still queued, so 'replayed' says nothing about whether an obligation would have failed as well.")
+print()
+print('| seeded change | what it changes | needs | exit | deductive obligations reported (first) | bounded clauses reported (first) |')
+print('|---|---|---|---|---|---|')
+for r in rows:
+    print(r)
